@@ -171,6 +171,10 @@ class _Log(CallbackListener):
     def dictionary_pop(self, e, k): self.w.events.append('dpop:%s:%s' % (self._i(e), tok_of_s(k)))
 
 
+class DanglingId(Exception):
+    pass
+
+
 class World:
     def __init__(self, listen=True):
         _install_wrappers()
@@ -221,15 +225,23 @@ class World:
         return '?'
 
     def obj(self, tok):
-        return None if tok == '~' else self.objs[int(tok)]
+        return None if tok == '~' else self._at(tok)
+
+    def _at(self, tok):
+        """the object an op names; an op naming an object that was never created is not a history at all (it
+        only arises when a shrinking step dropped the op that created it): the harness refuses to run it"""
+        i = int(tok)
+        if i < 0 or i >= len(self.objs):
+            raise DanglingId(tok)
+        return self.objs[i]
 
     def pin_arg(self, tok):
         if tok == 'D':
             return sdn.ir.OuterPin()
         if tok[0] == 'I':
-            return self.objs[int(tok[1:])]
+            return self._at(tok[1:])
         a, b = tok[1:].split('.')
-        inst, ip = self.objs[int(a)], self.objs[int(b)]
+        inst, ip = self._at(a), self._at(b)
         if tok[0] == 'S' and ip in inst._pins:
             return inst._pins[ip]
         # proxies are Python objects that callers may keep: two out of three requests for the same (instance, inner pin)
@@ -253,6 +265,8 @@ class World:
         try:
             self._do(toks)
             return 'ok'
+        except DanglingId:
+            raise
         except Exception as e:  # noqa
             return exn_class(e)
 
@@ -339,7 +353,7 @@ class World:
             self.obj(t[1]).reference = self.obj(t[2])
         elif o == 'settop':
             n = self.obj(t[1])
-            n.top_instance = None if t[2] == 'N' else self.objs[int(t[2][1:])]
+            n.top_instance = None if t[2] == 'N' else self._at(t[2][1:])
         elif o == 'setname':
             self.obj(t[1]).name = None if t[2] == '~' else s_of_tok(t[2])
         elif o == 'delname':
